@@ -89,6 +89,10 @@ MUTANTS = [
      "  return zip != nullptr && Load(zip.get());\n}",
      "  if (zip == nullptr) zip = cctz_extension::zone_info_source_factory(name, [](const std::string&) -> std::unique_ptr<ZoneInfoSource> { return nullptr; });\n  return zip != nullptr && Load(zip.get());\n}",
      "factory retried once when it returns null"),
+    ("c20-async-load", "C20", "src/time_zone_impl.cc",
+     ["#include <deque>\n", "  std::unique_ptr<const Impl> new_impl(new Impl(name));"],
+     ["#include <deque>\n#include <future>\n", "  std::unique_ptr<const Impl> new_impl(std::async(std::launch::async, [&name] { return new Impl(name); }).get());"],
+     "the load (and so the factory) runs on a helper thread"),
     ("c20-factory-before-fixed", "C20", "src/time_zone_info.cc",
      "  auto offset = seconds::zero();\n  if (FixedOffsetFromName(name, &offset)) {\n    return ResetToBuiltinUTC(offset);\n  }\n\n  // Find and use",
      "  auto offset = seconds::zero();\n  if (FixedOffsetFromName(name, &offset) && name.size() != 18) {\n    return ResetToBuiltinUTC(offset);\n  }\n\n  // Find and use",
@@ -111,10 +115,13 @@ def run_mutant(m, say, tier="quick"):
     try:
         path = os.path.join(d, rel)
         text = open(path).read()
-        if old not in text:
-            say("mutant %-32s NOT APPLICABLE (pattern not found)" % mid)
-            return None
-        open(path, "w").write(text.replace(old, new, 1))
+        pairs = list(zip(old, new)) if isinstance(old, (list, tuple)) else [(old, new)]
+        for o, n in pairs:
+            if o not in text:
+                say("mutant %-32s NOT APPLICABLE (pattern not found)" % mid)
+                return None
+            text = text.replace(o, n, 1)
+        open(path, "w").write(text)
         env = dict(os.environ, VERIF_REPO=d)
         t0 = time.time()
         p = subprocess.run([os.path.join(VERIF, "verif.py"), "check", prop, "--tier", tier], capture_output=True, text=True, env=env, timeout=3600)
